@@ -105,7 +105,7 @@ class Arm:
         t = X.ntext(c)
         if "BytesStart::local_name(" in t or "BytesStart::name(" in t:
             return True
-        if self.ns_bind and t.startswith("PartialEq::eq(%s," % self.ns_bind):
+        if self.ns_bind and self._is_ns_eq(c):
             return True
         return False
 
@@ -115,12 +115,23 @@ class Arm:
             return self.ns_const
         if self.ns_pat == "bound-bind" and self.guard is not None:
             for c in conjuncts(self.guard):
-                t = X.ntext(c)
-                if t.startswith("PartialEq::eq(%s," % self.ns_bind):
+                if self._is_ns_eq(c):
                     consts = [n for n in T.walk(c) if n.get("k") == "Const"]
                     if consts:
                         return consts[0]["def"]
         return None
+
+    def _is_ns_eq(self, c):
+        """`ns == CONST` or `CONST == ns` (either operand order, method or operator form)."""
+        e = T.peel(c)
+        ops = None
+        if e.get("k") == "Call" and T.short(e.get("fn", ""), 2) in ("PartialEq::eq",) and len(e.get("args", [])) == 2:
+            ops = [T.peel(a) for a in e["args"]]
+        elif e.get("k") == "Binary" and e.get("op") == "Eq":
+            ops = [T.peel(e["lhs"]), T.peel(e["rhs"])]
+        if not ops or not self.ns_bind:
+            return False
+        return any(o.get("k") == "Var" and o.get("name") == self.ns_bind for o in ops)
 
     def is_element(self):
         return bool(self.kinds & {"Start", "Empty"}) and not self.catch_all
